@@ -33,8 +33,12 @@ def enc_mod(m):
     gs = ";".join("+".join("%s:%d%s" % (hexs(f), 1 if e else 0, (":" + hexs(fd[f])) if f in fd else "") for f, e in g)
                   for g in m["groups"])
     im = "+".join(hexs(n) + ("@" + hexs(r) if r else "") + (("^" + ik[n]) if n in ik else "") for n, r in m["imports"])
-    return "%s%s,%s,%d,%s,%s" % ("+" if m.get("extra") else "", hexs(m["name"]), hexs(m["rev"]) if m["rev"] else "-",
-                                 1 if m["impl"] else 0, gs, im)
+    sg = ""
+    if m.get("subg"):
+        v, incs = m["subg"]
+        sg = ",%d;%s" % (v, ";".join("+".join(str(j) for j in l) for l in incs))
+    return "%s%s,%s,%d,%s,%s%s" % ("+" if m.get("extra") else "", hexs(m["name"]), hexs(m["rev"]) if m["rev"] else "-",
+                                   1 if m["impl"] else 0, gs, im, sg)
 
 
 def copy_set(ms):
@@ -46,7 +50,12 @@ def dec_mod(field):
     from vlib import unhex
     dh = lambda h: unhex(h).decode("latin-1")
     extra = field.startswith("+")
-    nm, rv, im, gs, is_ = field.lstrip("+").split(",")
+    parts = field.lstrip("+").split(",")
+    nm, rv, im, gs, is_ = parts[:5]
+    subg = None
+    if len(parts) > 5:
+        w = parts[5].split(";")
+        subg = (int(w[0]), [[int(j) for j in l.split("+")] if l else [] for l in w[1:]])
     groups, fdeps, imports, ikind = [], {}, [], {}
     for g in gs.split(";"):
         fs = []
@@ -65,16 +74,130 @@ def dec_mod(field):
         if kind:
             ikind[dh(q[0])] = kind
     return {"name": dh(nm), "rev": None if rv == "-" else dh(rv), "impl": im == "1",
-            "groups": groups, "imports": imports, "extra": extra, "fdeps": fdeps, "ikind": ikind}
+            "groups": groups, "imports": imports, "extra": extra, "fdeps": fdeps, "ikind": ikind, "subg": subg}
 
 
 def obs_of(m):
-    return (m["name"], m["rev"], m["impl"], [[f for f, e in g if e] for g in m["groups"]])
+    return (m["name"], m["rev"], m["impl"], [[f for f, e in g if e] for g in ctx_groups(m)])
 
 
 def split_sets(fields):
     k = fields.index("/")
     return [dec_mod(x) for x in fields[:k]], [dec_mod(x) for x in fields[k + 1:]]
+
+
+def includes_order(v11, incs, early=False):
+    """the includes array of a module as lysp_load_submodules builds it (mirror of YangLib.includes_order; used to
+    generate loadable graphs only; early=True is the code before /repo 272016c); None = the library refuses the graph"""
+    arr = [[j, False] for j in (incs[0] if incs else [])]
+    find = lambda j: next((e for e in arr if e[0] == j), None)
+
+    class Refused(Exception):
+        pass
+
+    def parse_sub(cur, stack, depth):
+        if depth > len(incs) + 1:
+            raise Refused()
+        for j in (incs[cur] if cur < len(incs) else []):
+            e = find(j)
+            if e and e[1]:
+                if early:
+                    return
+                continue
+            if e is None and v11:
+                raise Refused()
+            if j in stack:
+                if early:
+                    return
+                continue
+            parse_sub(j, [cur] + stack, depth + 1)
+            e = find(j)
+            if e:
+                e[1] = True
+            else:
+                arr.append([j, True])
+
+    try:
+        u = 0
+        while u < len(arr):
+            if not arr[u][1]:
+                parse_sub(arr[u][0], [], 0)
+                arr[u][1] = True
+            u += 1
+    except Refused:
+        return None
+    return [e[0] for e in arr]
+
+
+def closure(incs):
+    seen, todo = set(), list(incs[0]) if incs else []
+    while todo:
+        j = todo.pop()
+        if j not in seen:
+            seen.add(j)
+            todo += incs[j] if j < len(incs) else []
+    return seen
+
+
+def gen_subgraph(rng, ng):
+    """(version, include lists) for a module with ng - 1 submodules, every submodule loaded by the library as it is"""
+    n = ng - 1
+    if n < 1:
+        return (rng.choice([0, 1]), [[]]) if rng.random() < 0.3 else None
+    for _ in range(30):
+        r = rng.random()
+        subs = list(range(1, ng))
+        if r < 0.25:
+            return None                                             # YANG 1.1, the module includes all
+        if r < 0.45:                                                # YANG 1.1 with includes between submodules
+            main = subs[:]
+            rng.shuffle(main)
+            incs = [main] + [[j for j in subs if j != k and rng.random() < 0.4] for k in subs]
+            v = 1
+        elif r < 0.6:                                               # YANG 1.0 chain
+            incs = [[1]] + [[k + 1] if k < n else [] for k in subs]
+            v = 0
+        elif r < 0.7 and n >= 3:                                    # YANG 1.0 diamond
+            incs = [[1, 2], [3], [3]] + [[] for _ in range(3, ng)]
+            if n > 3:
+                incs[3] = list(range(4, ng))
+            v = 0
+        else:                                                       # YANG 1.0 random acyclic graph
+            main = [j for j in subs if rng.random() < 0.5] or [1]
+            rng.shuffle(main)
+            incs = [main] + [[j for j in subs if j > k and rng.random() < 0.5] for k in subs]
+            for l in incs[1:]:
+                rng.shuffle(l)
+            v = 0
+        # no include cycles (the library reports them), every submodule loaded
+        order = includes_order(v == 1, incs)
+        if order is not None and sorted(order) == subs and acyclic(incs):
+            return (v, incs)
+    return None
+
+
+def acyclic(incs):
+    state = {}
+
+    def visit(k):
+        if state.get(k) == 1:
+            return False
+        if state.get(k) == 2:
+            return True
+        state[k] = 1
+        ok = all(visit(j) for j in (incs[k] if k < len(incs) else []))
+        state[k] = 2
+        return ok
+    return all(visit(k) for k in range(1, len(incs)))
+
+
+def ctx_groups(m):
+    """the feature groups of a record in the order the context holds them"""
+    if not m.get("subg"):
+        return m["groups"]
+    v, incs = m["subg"]
+    order = includes_order(v == 1, incs) or []
+    return [m["groups"][0]] + [m["groups"][j] for j in order]
 
 
 def fresh_name(rng, used):
@@ -90,7 +213,7 @@ def fresh_name(rng, used):
     return "q%d" % k
 
 
-def new_module(rng, used, impl, max_sub=2, max_feat=3, norev=0.3):
+def new_module(rng, used, impl, max_sub=3, max_feat=3, norev=0.3):
     name = fresh_name(rng, used)
     used.add(name)
     pool = FEATS[:]
@@ -101,10 +224,10 @@ def new_module(rng, used, impl, max_sub=2, max_feat=3, norev=0.3):
         k = rng.randrange(0, max_feat + 1)
         groups.append([(pool.pop(), bool(impl and rng.random() < 0.5)) for _ in range(k)])
     rev = None if rng.random() < norev else rng.choice(REVS[1:])
-    return {"name": name, "rev": rev, "impl": impl, "groups": groups, "imports": []}
+    return {"name": name, "rev": rev, "impl": impl, "groups": groups, "imports": [], "subg": gen_subgraph(rng, len(groups))}
 
 
-def gen_set(rng, n_impl=None, max_sub=2, imports=True):
+def gen_set(rng, n_impl=None, max_sub=3, imports=True):
     """module records in the order the context will hold them: every explicitly loaded (implemented) module is
     followed by the modules its imports bring in for the first time, depth first"""
     n_impl = n_impl or rng.choice([1, 1, 2, 2, 3, 4])
@@ -649,13 +772,80 @@ def x_spec(rng):
     return ropts, entry, osrc, rsrc, target
 
 
+def gen_chain(rng):
+    """lib (implemented, features) <- 1..2 import-only modules (their groupings wrap the grouping of lib) <- svc
+    (implemented); either lib or svc is loaded first; plus a direct importer sometimes"""
+    used = set()
+    lib = new_module(rng, used, impl=True, max_sub=rng.choice([0, 0, 1]))
+    if not lib["groups"][0]:
+        lib["groups"][0] = [("extra", False)]
+    mids, prev = [], lib
+    for _ in range(rng.choice([1, 1, 2])):
+        mid = new_module(rng, used, impl=False, max_sub=0)
+        mid["imports"] = [(prev["name"], prev["rev"] if (prev["rev"] and rng.random() < 0.5) else None)]
+        mids.append(mid)
+        prev = mid
+    svc = new_module(rng, used, impl=True)
+    svc["imports"] = [(prev["name"], prev["rev"] if (prev["rev"] and rng.random() < 0.5) else None)]
+    if rng.random() < 0.5:
+        ms = [lib, svc] + mids[::-1]           # lib first; svc brings the intermediaries in
+    else:
+        ms = [svc] + mids[::-1] + [lib]        # svc first: lib arrives import-only and is implemented afterwards
+    if rng.random() < 0.4:
+        app = new_module(rng, used, impl=True)
+        app["imports"] = [(lib["name"], None)]
+        ms.insert(rng.randrange(1, len(ms) + 1) if ms[0] is lib else len(ms), app)
+    return ms, ms.index(lib)
+
+
+def post_ops(rng, ms, j=None):
+    """feature changes after all loads: on, off, on-then-off, partial (closed under if-feature)"""
+    ops = []
+    for _ in range(rng.choice([1, 1, 2, 3])):
+        k = j if (j is not None and rng.random() < 0.8) else rng.choice([i for i, m in enumerate(ms) if not m.get("extra")])
+        r = rng.random()
+        if r < 0.35:
+            spec = "*"
+        elif r < 0.6:
+            spec = "-"
+        else:
+            fs = closed_subset(rng, ms[k])
+            spec = "+".join(hexs(f) for f in fs) if fs else "-"
+        ops.append("Q:%d:%s" % (k, spec))
+    return ops
+
+
+# regression of seeded change C19-8: svc -> common (import-only) -> lib; lib:extra is enabled after svc was compiled
+CHAIN_LINES = []
+for _first in (0, 1):
+    _lib = {"name": "lib", "rev": "2024-01-01", "impl": True, "groups": [[("extra", False)]], "imports": []}
+    _common = {"name": "common", "rev": None, "impl": False, "groups": [[]], "imports": [("lib", None)]}
+    _mid2 = {"name": "mid2", "rev": None, "impl": False, "groups": [[]], "imports": [("common", None)]}
+    _svc = {"name": "svc", "rev": None, "impl": True, "groups": [[]], "imports": [("common", None)]}
+    _svc2 = {"name": "svc2", "rev": None, "impl": True, "groups": [[]], "imports": [("mid2", None)]}
+    _ms = [_lib, _svc, _common, _svc2, _mid2] if _first == 0 else [_svc, _common, _lib, _svc2, _mid2]
+    _k = _ms.index(_lib)
+    for _q in (["Q:%d:*" % _k], ["Q:%d:*" % _k, "Q:%d:-" % _k, "Q:%d:%s" % (_k, hexs("extra"))]):
+        CHAIN_LINES.append("\t".join(["ylx", "0", "X:0:mj:c:c:e"] + _q + [enc_mod(m) for m in _ms]))
+
+AUGMENT_ORDER_LINE = "\t".join(["ylx", "0", "X:0:mj:c:c:e"] + [enc_mod(m) for m in (
+    {"name": "a2", "rev": None, "impl": True, "groups": [[]], "imports": [("m", None)]},
+    {"name": "m", "rev": "2020-01-01", "impl": False, "groups": [[], [], []], "imports": []},
+    {"name": "x", "rev": None, "impl": True, "groups": [[]], "imports": [("m", None)], "ikind": {"m": "a"}})])
+SUB_SKIP_LINE = "\t".join(["ylx", "0", "X:0:mj:c:c:e", enc_mod(
+    {"name": "m", "rev": "2020-01-01", "impl": True, "imports": [], "subg": (0, [[1, 2], [], [1, 3], []]),
+     "groups": [[("a", True)], [("b", False)], [("c", True)], [("d", False)]]})])
+
+
 class YlxOracle:
     """C19 on the implementation, every way of rebuilding: options of the rebuilding context (ENABLE_IMP_FEATURES,
     ALL_IMPLEMENTED, REF_IMPLEMENTED, EXPLICIT_COMPILE, NO_YANGLIBRARY, PREFER_SEARCHDIRS), module texts from the import
     callback / a search directory / both, ly_ctx_new_yldata / ylmem / ylpath with JSON and XML, into a new context
     (*ctx == NULL), an existing empty one, or one already holding some of the modules (other feature states, other
     revisions, implemented or not); module sets with import / augment / deviation dependencies in both list orders,
-    features with if-feature dependencies, enabled sets empty / partial / full.  Expected: the modules the original
+    features with if-feature dependencies, enabled sets empty / partial / full, set at load time or changed afterwards
+    by lys_set_implemented (on, off, on-then-off; Q fields) with the dependent module reached through import-only
+    modules whose groupings wrap the grouping with the feature's leaf.  Expected: the modules the original
     implements are implemented at the same revision with the same enabled features, every other module of the
     description is present, the implemented modules compile to the same schema."""
     name = "yl-variants"
@@ -671,6 +861,35 @@ class YlxOracle:
             L.append("\t".join(["ylx", "0", "X:%d:%s:c:c:e" % (ENABLE_IMP, entry)] + [enc_mod(m) for m in (ca, cb)]))
             L.append("\t".join(["ylx", "0", "X:%d:%s:s:s:n" % (ENABLE_IMP, entry)] + [enc_mod(m) for m in (ca, cb)]))
             L.append("\t".join(["ylx", "0", "X:0:%s:c:c:e" % entry, "P:1:*"] + [enc_mod(m) for m in (ca, cb)]))
+        # submodule graphs (regression of seeded change C19-5: features of injected includes left out of the description):
+        # YANG 1.0 chain m -> s1 -> s2 -> s3 and diamond, only the deep features enabled
+        deep = lambda subg: {"name": "m", "rev": "2020-01-01", "impl": True, "imports": [], "subg": subg,
+                             "groups": [[("a", False)], [("b", False)], [("c", True)], [("d", True)]]}
+        for subg in ((0, [[1], [2], [3], []]), (0, [[1, 2], [3], [3], []]), (0, [[2], [], [3], [1]]),
+                     (1, [[3, 1, 2], [2], [], [1, 2]])):
+            for spec in ("X:0:mj:c:c:e", "X:%d:mx:s:s:n" % ENABLE_IMP, "X:0:d:c:b:e"):
+                L.append("\t".join(["ylx", "0", spec, enc_mod(deep(subg))]))
+            L.append("\t".join(["ylx", "0", "X:0:mj:c:c:e", "P:0:*", enc_mod(deep(subg))]))
+        # regression (fixed in /repo 272016c): a submodule whose first include is already parsed and whose second include
+        # is not included by the module - s3 is in the include closure and must be loaded, its feature d can be enabled
+        skip = deep((0, [[1, 2], [], [1, 3], []]))
+        skip["groups"] = [[("a", True)], [("b", False)], [("c", True)], [("d", False)]]
+        L.append("\t".join(["ylx", "0", "X:0:mj:c:c:e", enc_mod(skip)]))
+        L.append("\t".join(["ylx", "0", "X:0:mx:s:s:n", enc_mod(deep((0, [[1, 2], [], [1, 3], []])))]))
+        # known finding yl-augment-order: m is implemented as a side effect of x in the original, explicitly in the rebuild
+        L.append(AUGMENT_ORDER_LINE)
+        # feature changes after the loads, dependencies through import-only modules (regression of seeded change C19-8)
+        L += CHAIN_LINES
+        for _ in range(int((4000 if tier == "thorough" else 250) * scale)):
+            ms, j = gen_chain(rng)
+            if rng.random() < 0.5:
+                add_feature_deps(rng, ms)
+            ropts, entry, osrc, rsrc, target = x_spec(rng)
+            if rng.random() < 0.5:
+                ropts = 0
+            oopts = rng.choice([0, 0, 0, EXPLICIT])
+            L.append("\t".join(["ylx", str(oopts), "X:%d:%s:%s:%s:%s" % (ropts, entry, osrc, rsrc, target)] +
+                               post_ops(rng, ms, j) + [enc_mod(m) for m in ms]))
         n = int((12000 if tier == "thorough" else 700) * scale)
         for _ in range(n):
             r = rng.random()
@@ -678,6 +897,12 @@ class YlxOracle:
                 ms = gen_multirev(rng, pinned_only=rng.random() < 0.6)
             else:
                 ms = gen_set(rng)
+            if rng.random() < 0.2:
+                # exactly the features of the deepest submodules (not included by the module itself) enabled
+                for m in ms:
+                    if m["impl"] and m.get("subg"):
+                        direct = set(m["subg"][1][0])
+                        m["groups"] = [[(f, k > 0 and k not in direct) for f, _ in g] for k, g in enumerate(m["groups"])]
             if rng.random() < 0.7:
                 add_feature_deps(rng, ms)
             if rng.random() < 0.7:
@@ -691,30 +916,56 @@ class YlxOracle:
             ropts, entry, osrc, rsrc, target = x_spec(rng)
             oopts = rng.choice([0, 0, 0, EXPLICIT, ENABLE_IMP, ALL_IMPL, ALL_IMPL | ENABLE_IMP, REF_IMPL])
             pre = pre_ops(rng, ms) if (target == "e" and rng.random() < 0.45) else []
+            if rng.random() < 0.35:
+                pre = pre + post_ops(rng, ms)
             L.append("\t".join(["ylx", str(oopts), "X:%d:%s:%s:%s:%s" % (ropts, entry, osrc, rsrc, target)] + pre +
                                [enc_mod(m) for m in ms]))
         return L
 
     def judge(self, line, out):
+        from vlib import unhex
         f = line.split("\t")
         xs = [x for x in f[2:] if x.startswith("X:")][0].split(":")
         ropts = int(xs[1])
-        srcs = [dec_mod(x) for x in f[2:] if not x.startswith(("X:", "P:"))]
+        srcs = [dec_mod(x) for x in f[2:] if not x.startswith(("X:", "P:", "Q:"))]
         if out in ("E", "Eyl"):
             return None         # the original context cannot be built from this set (not a round-trip question)
         if " # " not in out:
             return (None, "round trip did not complete: %s" % out[-200:])
         left, right = out.split(" # ")
         lw, rw = left.split(" "), right.split(" ")
-        if len(lw) != 2 or len(rw) != 4:
+        if len(lw) != 2 or len(rw) != 8:
             return (None, "driver answered %r" % out[-200:])
         valrc, rbrc = lw
-        cdiff, pre, recs_a, recs_b = rw
+        cdiff, pre, recs_a, recs_b, desc, truth, hash_a, hash_b = rw
         pre_ok = pre != "-" and "0" in pre.split(",")
         multi = set(m["name"] for m in srcs if len([x for x in srcs if x["name"] == m["name"]]) > 1)
         loose = set(hexs(n) for m in srcs for n, r in m["imports"] if r is None and n in multi)
         if valrc != "0":
             return (None, "the yang-library data are not valid (rc %s)" % valrc)
+        # the description lists every enabled feature (lys_feature_value over all features of module and submodules)
+        # exactly once and every submodule of the module with its revision
+        D = dict(((e.split(",")[0], e.split(",")[1]), e.split(",")) for e in desc.split("|"))
+        for e in truth.split("|"):
+            nm, rv, fs, subs = e.split(",")
+            d = D.get((nm, rv))
+            if d is None:
+                return (None, "module %s@%s is not in the yang-library data" % (nm, rv))
+            if sorted(x for x in fs.split("+") if x) != sorted(x for x in d[2].split("+") if x):
+                return (None, "module %s: enabled features %s, described %s" % (nm, fs, d[2]))
+            if sorted(x for x in subs.split("+") if x) != sorted(x for x in d[3].split("+") if x):
+                return (None, "module %s: submodules %s, described %s" % (nm, subs, d[3]))
+        # every submodule of the include closure of a module is part of it (regression of the defect fixed in /repo
+        # 272016c: an include after one that is already parsed was skipped)
+        for m in srcs:
+            if m.get("subg") and not m["extra"]:
+                want = closure(m["subg"][1])
+                t = [e.split(",") for e in truth.split("|") if e.split(",")[0] == hexs(m["name"])]
+                for nm, rv, fs, subs in t:
+                    have = set(int(unhex(x.split("@")[0]).decode().rsplit("-s", 1)[1]) for x in subs.split("+") if x)
+                    if have != want:
+                        return (None, "module %s: submodules of the include closure %s, loaded %s"
+                                % (m["name"], sorted(want), sorted(have)))
         if rbrc != "0":
             # legitimate: only one revision of a module can be implemented; the populated context, or ALL_/REF_IMPLEMENTED
             # acting on an import with revision-date, may already have implemented another revision of a listed module
@@ -743,9 +994,18 @@ class YlxOracle:
         if extra and not pre_ok:
             # (modules that the populated context held before stay, whatever the description says)
             return (tag([k[0] for k in extra]), "rebuilt context has additional modules %s" % extra)
+        # (a NO_YANGLIBRARY context counts ietf-datastores and ietf-yang-library as ordinary modules and hashes them too)
+        if A == B and not (ropts & NO_YL) and hash_a != hash_b:
+            return (None, "same ordered module list, ly_ctx_get_modules_hash %s and %s" % (hash_a, hash_b))
         if cdiff != "-":
             # legitimate: additional implemented modules may augment / deviate the listed ones
             more_impl = [k for k, b in Bm.items() if b[2] == "1" and (k not in Am or Am[k][2] != "1")]
+            # known (yl-augment-order): the order of sibling nodes that come from different augment statements follows the
+            # order in which the augmenting (sub)modules were registered, i.e. the history of the context, and the rebuild
+            # implements the modules in list order; prints with the same lines in another order are marked ~
+            order_only = all(x.endswith("~") for x in cdiff.split("+"))
+            if not more_impl and order_only:
+                return ("yl-augment-order", "compiled modules have their nodes in another order after the round trip: %s" % cdiff)
             if not more_impl:
                 return ("yl-import-only-rev" if loose else None, "compiled modules differ after the round trip: %s" % cdiff)
         return None
